@@ -6,6 +6,7 @@ import (
 	"bytes"
 	"context"
 	"crypto/sha256"
+	"errors"
 	"fmt"
 	"os"
 	"os/exec"
@@ -114,6 +115,35 @@ func c05Calls() map[string]c05Call {
 		return err
 	})
 	add("dropc", func(w *world.World) error { return w.C("d", "c").Drop(w.Ctx) })
+	// a session transaction committed through the manual API (no deferred Abort on the caller's side)
+	add("txn", func(w *world.World) error {
+		sess, err := w.Client.StartSession()
+		if err != nil {
+			return err
+		}
+		defer sess.EndSession(w.Ctx)
+		if err := sess.StartTransaction(); err != nil {
+			return err
+		}
+		_ = lungo.WithSession(w.Ctx, sess, func(sc lungo.ISessionContext) error {
+			_, _ = w.C("d", "c").InsertOne(sc, bD("_id", "in-txn", "pad", pad("t", 30)))
+			_, _ = w.C("d", "e").InsertOne(sc, bD("_id", "in-txn"))
+			return nil
+		})
+		return sess.CommitTransaction(w.Ctx)
+	})
+	add("wtxn", func(w *world.World) error {
+		sess, err := w.Client.StartSession()
+		if err != nil {
+			return err
+		}
+		defer sess.EndSession(w.Ctx)
+		_, err = sess.WithTransaction(w.Ctx, func(sc lungo.ISessionContext) (interface{}, error) {
+			_, err := w.C("d", "c").InsertOne(sc, bD("_id", "in-wtxn"))
+			return nil, err
+		})
+		return err
+	})
 	return m
 }
 
@@ -129,6 +159,9 @@ type c05Trace struct {
 	failMode  string
 	noops     int
 }
+
+// c05Retention makes c05Run open the engine with a retention that trims aged change-log events at every commit.
+var c05Retention bool
 
 // c05Run opens an engine on the image and performs the calls, with an optional single fault.
 func c05Run(img memfs.Image, calls []string, failAt int, failMode string) *c05Trace {
@@ -156,7 +189,11 @@ func c05Run(img memfs.Image, calls []string, failAt int, failMode string) *c05Tr
 	fs.FailAt = savedFail
 	fs.NoSnaps = false
 	fs.Mark("before open")
-	eng, err := lungo.CreateEngine(lungo.Options{Store: st, ExpireInterval: 1000 * time.Hour})
+	opts := lungo.Options{Store: st, ExpireInterval: 1000 * time.Hour}
+	if c05Retention {
+		opts.MinOplogSize, opts.MaxOplogSize, opts.MinOplogAge, opts.MaxOplogAge = 2, 1000, time.Nanosecond, time.Hour
+	}
+	eng, err := lungo.CreateEngine(opts)
 	if err != nil {
 		tr.openErr = err
 		if !fs.Injected {
@@ -169,7 +206,17 @@ func c05Run(img memfs.Image, calls []string, failAt int, failMode string) *c05Tr
 	for _, cn := range calls {
 		before := world.DumpCatalog(eng.Catalog(), world.DumpOpts{Raw: true, Oplog: true, IndexList: true})
 		acks, stores, inj := st.acks, st.stores, fs.Injected
+		// a commit that cannot get the writer slot would wait for a minute: bound the call generously instead
+		cctx, cancel := context.WithTimeout(bgCtx, 30*time.Second)
+		w.Ctx = cctx
 		err := all[cn].do(w)
+		cancel()
+		w.Ctx = bgCtx
+		if err != nil && (errors.Is(err, context.DeadlineExceeded) || strings.Contains(err.Error(), "token acquisition timeout")) {
+			tr.problems = append(tr.problems, fmt.Sprintf("later-commit-blocked: %s could not obtain the writer slot (%v): an earlier failed commit did not release it", cn, err))
+			tr.callErrs = append(tr.callErrs, err)
+			break
+		}
 		tr.callErrs = append(tr.callErrs, err)
 		after := world.DumpCatalog(eng.Catalog(), world.DumpOpts{Raw: true, Oplog: true, IndexList: true})
 		struck := fs.Injected && !inj
@@ -206,6 +253,7 @@ type c05Checker struct {
 	st         c05Stats
 	tmp        map[[32]byte]memfs.Image // distinct crash images that contain a stale temp file
 	nonTrivial map[[32]byte]bool
+	collectTmp bool
 }
 
 func (k *c05Checker) load(im memfs.Image) string {
@@ -261,7 +309,7 @@ func (k *c05Checker) check(tr *c05Trace, label string) {
 		_, ok := s.Images(func(im memfs.Image, bm, dm int) {
 			k.st.images++
 			h := im.Hash()
-			if _, has := im["data.bson.tmp"]; has {
+			if _, has := im["data.bson.tmp"]; has && k.collectTmp {
 				if _, seen := k.tmp[h]; !seen {
 					k.tmp[h] = im
 				}
@@ -302,14 +350,26 @@ func init() {
 			{"ins1", "ins2big", "del2", "upd1"},
 			{"ins1", "idx", "ins3other", "dropc"},
 		}
+		histories = append(histories, []string{"ins1", "txn", "upd1", "wtxn"})
 		if !c.Quick() {
 			histories = append(histories, []string{"ins2big", "ins1", "upd1", "del2", "ins3other", "idx"})
 		}
+		// the same on a database whose change log holds aged events, with a retention that trims at every commit
+		// (commits that only change index definitions included)
+		agedFrom := len(histories)
+		histories = append(histories, []string{"idx", "ins1", "txn", "upd1"})
 		var samples []interface{}
 		for hi, h := range histories {
 			label := fmt.Sprintf("H%d%v", hi+1, h)
+			k.collectTmp = hi == 0 || !c.Quick() // quick: stale temp files of the first history only
+			start := memfs.Image{}
+			c05Retention = hi >= agedFrom
+			if c05Retention {
+				label += "(aged log, trimming retention)"
+				start = memfs.Image{"data.bson": c09AgedImage()}
+			}
 			// (1) fault-free run: every crash point x every persistence subset
-			base := c05Run(memfs.Image{}, h, -1, "")
+			base := c05Run(start, h, -1, "")
 			k.check(base, label)
 			if len(samples) < 4 {
 				var ops []string
@@ -326,7 +386,7 @@ func init() {
 					modes = append(modes, "short")
 				}
 				for _, m := range modes {
-					tr := c05Run(memfs.Image{}, h, at, m)
+					tr := c05Run(start, h, at, m)
 					k.st.faults++
 					if !tr.fs.Injected {
 						r.Broken("fault at op %d of %s was not injected", at, label)
@@ -335,6 +395,8 @@ func init() {
 				}
 			}
 		}
+		c05Retention = false
+		k.collectTmp = false
 		// (3) restart on every distinct crash image that carries a stale temp file, then commit again
 		var tmpImgs []memfs.Image
 		var keys []string
